@@ -126,6 +126,8 @@ class Engine:
         self._inc = None
         self._inc_n = 0
         self._inc_last = None
+        self._vars_cache = {}
+        _v.set_oracle(self.decide, self.entailed_int_cached)
 
     def fresh_name(self, base):
         k = self._fresh.get(base, 0)
@@ -138,8 +140,8 @@ class Engine:
     def fresh_bool(self, base):
         return z3.Bool(self.fresh_name(base))
 
-    def fresh_seq(self, kind, base, lo=None, hi=None):
-        return seq_base(kind, self.fresh_name(base), self, lo, hi)
+    def fresh_seq(self, kind, base, lo=None, hi=None, elem_fact=None):
+        return seq_base(kind, self.fresh_name(base), self, lo, hi, elem_fact)
 
     def fact(self, b):
         """append a (universally valid or assumed) fact to the path condition"""
@@ -168,6 +170,7 @@ class Engine:
     def _solver(self, timeout_ms):
         s = z3.Solver()
         s.set('timeout', timeout_ms)
+        s.set('rlimit', 40000000)
         return s
 
     def _sync_solver(self):
@@ -182,8 +185,66 @@ class Engine:
             self._inc_last = self.pc[n - 1]
         return self._inc
 
-    def feasible(self, extra):
+    def _vars_of(self, e):
+        """uninterpreted constants (0-ary symbols of any sort) of a formula; memoised per path"""
+        k = e.get_id()
+        hit = self._vars_cache.get(k)
+        if hit is not None:
+            return hit[0]
+        out = set()
+        seen = set()
+        stack = [e]
+        while stack:
+            t = stack.pop()
+            i = t.get_id()
+            if i in seen:
+                continue
+            seen.add(i)
+            if z3.is_quantifier(t):
+                stack.append(t.body())
+                continue
+            if z3.is_app(t):
+                if t.num_args() == 0:
+                    if t.decl().kind() == z3.Z3_OP_UNINTERPRETED:
+                        out.add(t.decl().name())
+                else:
+                    stack.extend(t.children())
+        fs = frozenset(out)
+        self._vars_cache[k] = (fs, e)
+        return fs
+
+    def _slice(self, extra):
+        """path-condition formulas that share a variable (transitively) with `extra` (cone of influence).
+        Dropping the others over-approximates satisfiability, so `infeasible` answers stay sound."""
+        want = set(self._vars_of(extra))
+        if not want:
+            return list(self.pc)          # ground query (e.g. ENCODABLE(48)): no slicing
+        pcv = [(f, self._vars_of(f)) for f in self.pc]
+        chosen = [not vs for (f, vs) in pcv]          # ground facts are always kept
+        changed = True
+        while changed:
+            changed = False
+            for idx, (f, vs) in enumerate(pcv):
+                if not chosen[idx] and vs & want:
+                    chosen[idx] = True
+                    if not vs <= want:
+                        want |= vs
+                        changed = True
+        return [f for idx, (f, _) in enumerate(pcv) if chosen[idx]]
+
+    def feasible(self, extra, full=False):
         t0 = time.time()
+        extra = B(extra)
+        if not full and len(self.pc) > 40 and bool_lit(extra) is None:
+            sl = self._slice(extra)
+            if len(sl) < len(self.pc):
+                s = self._solver(4000)
+                s.add(*sl)
+                s.add(extra)
+                r = s.check()
+                self.stats['feas_calls'] += 1
+                self.stats['feas_time'] += time.time() - t0
+                return r != z3.unsat
         s = self._sync_solver()
         s.push()
         s.add(extra)
@@ -193,12 +254,25 @@ class Engine:
         self.stats['feas_time'] += time.time() - t0
         return r != z3.unsat
 
+    def entailed_int_cached(self, t):
+        key = ('v', len(self.pc), t.get_id())
+        hit = self._decide_cache.get(key)
+        if hit is not None:
+            return hit[0]
+        r = self.entailed_int(t)
+        self._decide_cache[key] = (r, t)
+        return r
+
     def entailed_int(self, t):
         """python int v if the path condition entails t == v, else None"""
         c = conc_int(t)
         if c is not None:
             return c
-        s = self._sync_solver()
+        if len(self.pc) > 40:
+            s = self._solver(4000)
+            s.add(*self._slice(t == 0))
+        else:
+            s = self._sync_solver()
         s.push()
         try:
             if s.check() != z3.sat:
@@ -292,6 +366,12 @@ class Engine:
 
     def prove_value_eq(self, name, a, b, tier='I', kind='post'):
         """goal a == b for values; sequences are compared by length + element at one skolem index"""
+        if isinstance(a, VRef) and isinstance(b, VRef) and a.oid != b.oid and self.kind_of(a) == 'dict' and self.kind_of(b) == 'dict':
+            from .models_iso import AssocDict
+            da, db = self.getf(a, 'val'), self.getf(b, 'val')
+            ea = AssocDict.from_concrete(da).entries if isinstance(da, dict) else da.entries
+            eb = AssocDict.from_concrete(db).entries if isinstance(db, dict) else db.entries
+            return self.prove_value_eq(name + '.entries', ea, eb, tier, kind)
         if isinstance(a, VRef) and isinstance(b, VRef) and a.oid != b.oid:
             ca, cb = self.heap.get(a.oid), self.heap.get(b.oid)
             if ca is not None and cb is not None and ca.get('__kind__') in ('list',) and cb.get('__kind__') == ca.get('__kind__'):
@@ -1118,7 +1198,10 @@ class Engine:
         for key, val in st0.items():
             self.prove_value_eq('%s/inv-entry/%s' % (tag, key), self.read_path(key, fr), val, tier, 'inv-entry')
         # 2. havoc
-        g = {name: self.fresh_int('g_' + name) for name in spec.ghosts}
+        g = {}
+        for name in spec.ghosts:
+            srt = getattr(spec, 'ghost_sorts', {}).get(name)
+            g[name] = self.fresh_int('g_' + name) if srt is None else z3.Const(self.fresh_name('g_' + name), srt)
         if is_for:
             g.setdefault('i', self.fresh_int('g_i'))
             self.assume(g['i'] >= 0)
@@ -1127,11 +1210,18 @@ class Engine:
             self.assume(c)
         st = spec.state(ctx, g)
         modified = self.assigned_names(s.body) | (self.assigned_names([s.target]) if is_for else set())
+        hv_keys = set(spec.havoc_keys) if hasattr(spec, 'havoc_keys') else set()
         for name in modified:
-            if name not in st:
+            if name not in st and name not in hv_keys:
                 fr.locals[name] = VUnknown('%s assigned in %s, not in loop spec' % (name, tag))
         for key, val in st.items():
             self.write_path(key, val, fr)
+        # variables about which the invariant says nothing: fresh values of the right shape, no obligations
+        hv = spec.havoc(ctx, g) if hasattr(spec, 'havoc') else {}
+        for key, val in hv.items():
+            self.write_path(key, val, fr)
+        st = dict(st)
+        st.update({k: None for k in hv})
         if hasattr(spec, 'facts'):
             for c in spec.facts(ctx, g):
                 self.assume(c)
@@ -1714,6 +1804,11 @@ class Engine:
         d = self.getf(ref, 'val')
         if not isinstance(d, dict):
             return d.set(self, ref, key, val)
+        if isinstance(key, VSeq) and conc_str(key) is None:
+            from .models_iso import AssocDict          # symbolic key: the dict becomes an association list
+            ad = AssocDict.from_concrete(d)
+            self.setf(ref, 'val', ad)
+            return ad.set(self, ref, key, val)
         d2 = dict(d)
         d2[self.dict_key(key)] = val
         self.setf(ref, 'val', d2)
